@@ -51,7 +51,8 @@ def build_harness(log):
             out = os.path.join(BUILD, "vharness-" + tag)
         tmp = out + ".%d" % os.getpid()
         t0 = time.time()
-        p = subprocess.run(["go", "build"] + modflag + ["-tags", "verif", "-o", tmp, "./cmd/vharness"],
+        cover = ["-cover", "-coverpkg=verifharness/...,github.com/fiorix/go-diameter/v4/..."] if os.environ.get("VERIF_COVER") else []   # with GOCOVERDIR: which library code the checks execute
+        p = subprocess.run(["go", "build"] + modflag + cover + ["-tags", "verif", "-o", tmp, "./cmd/vharness"],
                            cwd=HARNESS, env=goenv(), stdout=subprocess.PIPE, stderr=subprocess.STDOUT, text=True)
         if p.returncode != 0:
             raise Infra("harness build failed:\n" + p.stdout)
